@@ -225,7 +225,11 @@ func idleEdge(sc scen) (fs []tmon.Finding, nFut int, stats map[string]int64, inc
 	return fs, len(mon.Futures()), stats, ""
 }
 
+var setupMu sync.RWMutex // VerifReset replaces the package state: the lock probe must not read it meanwhile
+
 func setup(sc scen) {
+	setupMu.Lock()
+	defer setupMu.Unlock()
 	if sc.Native {
 		timeout.VerifSetIdle(sc.Idle)
 		return
@@ -797,6 +801,59 @@ func runScenario(sc scen) (fs []tmon.Finding, nFut int, stats map[string]int64, 
 	return fs, len(mon.Futures()), stats, ""
 }
 
+// runGuarded runs the scenario and, beside it, a probe that reads the package state through the hook (i.e. takes
+// the package lock) every 100 ms. A scenario that is still running after its budget while the probe has been
+// waiting for the package lock for more than 30 s means: somebody holds the package lock and never gives it back -
+// every Call and Cancel blocks, nothing is started any more. That is final and reported as a violation (the
+// scenario itself can only hang in that state); a scenario that overruns with the lock available is inconclusive.
+func runGuarded(sc scen) (fs []tmon.Finding, nFut int, stats map[string]int64, inconclusive string) {
+	type res struct {
+		fs    []tmon.Finding
+		n     int
+		stats map[string]int64
+		inc   string
+	}
+	done := make(chan res, 1)
+	go func() {
+		f, n, st, inc := runScenario(sc)
+		done <- res{f, n, st, inc}
+	}()
+	var lastProbe atomic.Int64 // unix nano of the last hook call that came back
+	lastProbe.Store(time.Now().UnixNano())
+	stop := make(chan struct{})
+	defer close(stop)
+	go func() {
+		for {
+			select {
+			case <-stop:
+				return
+			default:
+			}
+			setupMu.RLock()
+			timeout.VerifState()
+			setupMu.RUnlock()
+			lastProbe.Store(time.Now().UnixNano())
+			time.Sleep(100 * time.Millisecond)
+		}
+	}()
+	budget := 10 * time.Minute
+	deadline := time.After(budget)
+	tick := time.NewTicker(time.Second)
+	defer tick.Stop()
+	for {
+		select {
+		case r := <-done:
+			return r.fs, r.n, r.stats, r.inc
+		case <-tick.C:
+			if blocked := time.Since(time.Unix(0, lastProbe.Load())); blocked > 30*time.Second {
+				return []tmon.Finding{{Sig: "timer/package-lock-never-released", What: fmt.Sprintf("the package lock of the timeout package has not been available for %v (a hook that only reads two counters under it does not come back) while the scenario hangs: every Call and Cancel blocks, nothing can be started any more", blocked.Round(time.Second))}}, 0, map[string]int64{}, ""
+			}
+		case <-deadline:
+			return nil, 0, map[string]int64{}, fmt.Sprintf("scenario still running after %v (the package lock is available)", budget)
+		}
+	}
+}
+
 func TestChild(t *testing.T) {
 	idx, total, part, ok := shard.Child()
 	if !ok {
@@ -825,7 +882,7 @@ func TestChild(t *testing.T) {
 		var inc string
 		for attempt := 1; ; attempt++ {
 			cn := tmon.StartCanary()
-			fs, nf, stats, inc = runScenario(sc)
+			fs, nf, stats, inc = runGuarded(sc)
 			stall := cn.Stop()
 			if int64(stall/time.Microsecond) > res.Maxes["canary_worst_stall_us"] {
 				res.Maxes["canary_worst_stall_us"] = int64(stall / time.Microsecond)
@@ -879,7 +936,7 @@ func TestChild(t *testing.T) {
 func TestCheck(t *testing.T) {
 	run := report.New("C13", "exploration")
 	defer run.Finish(t)
-	run.Rule("arrival patterns: permutations of {far future (30 s, or 'never' = MaxInt64), near future 20 ms (in half of the configurations: idle timeout + 10 ms), burst of 50 futures (> pool), cancel the head of the queue, idle gap of 2.5 idle timeouts} (24 orders quick, all 120 thorough) x 1 or 4 concurrent callers x idle timeout 20 ms / 200 ms (/ 5 s thorough) x pool limit 1/2/10, callbacks return at once; between the elements futures that fired or were cancelled already are cancelled again (late / repeated cancels); extra patterns with seven long watchdogs of different deadlines, two of which are cancelled from the middle of the queue, mixed with near futures and bursts. Monitors: every non-cancelled future starts (drain detector on hook state; pending>0 with no worker is final), lateness <= 1.5 s, hook invariant pending>0 => workers>=1 sampled under the package lock, workers reach 0 within (limit+3) idle periods + 2 s and the goroutine census agrees, a Call after the wind-down fires again; contended wind-down rounds: a far future pending, a blocking burst grows the pool to its limit, four goroutines hammer the package lock while the surplus workers leave - one worker must stay. a third of the 10-worker scenarios and rendezvous bursts (2-5 futures due together whose callbacks wait up to 300 ms for each other; only eventual start is judged, the statement bounds lateness for prompt callbacks only); slow patterns with a deadline 2.5 s ahead (inside the 3 s idle timeout) pending when a near one arrives; the chase trials (a Call issued the moment the previous callback is seen running, swept by 0-2 us, 3 s idle timeout) also run in children that never replace the package state built by the package's own init(). evaluations = futures; distinct = distinct scenario configurations")
+	run.Rule("arrival patterns: permutations of {far future (30 s, or 'never' = MaxInt64), near future 20 ms (in half of the configurations: idle timeout + 10 ms), burst of 50 futures (> pool), cancel the head of the queue, idle gap of 2.5 idle timeouts} (24 orders quick, all 120 thorough) x 1 or 4 concurrent callers x idle timeout 20 ms / 200 ms (/ 5 s thorough) x pool limit 1/2/10, callbacks return at once; between the elements futures that fired or were cancelled already are cancelled again (late / repeated cancels); extra patterns with seven long watchdogs of different deadlines, two of which are cancelled from the middle of the queue, mixed with near futures and bursts. Monitors: every non-cancelled future starts (drain detector on hook state; pending>0 with no worker is final), lateness <= 1.5 s, hook invariant pending>0 => workers>=1 sampled under the package lock, workers reach 0 within (limit+3) idle periods + 2 s and the goroutine census agrees, a Call after the wind-down fires again; contended wind-down rounds: a far future pending, a blocking burst grows the pool to its limit, four goroutines hammer the package lock while the surplus workers leave - one worker must stay. a third of the 10-worker scenarios and rendezvous bursts (2-5 futures due together whose callbacks wait up to 300 ms for each other; only eventual start is judged, the statement bounds lateness for prompt callbacks only); slow patterns with a deadline 2.5 s ahead (inside the 3 s idle timeout) pending when a near one arrives; the chase trials (a Call issued the moment the previous callback is seen running, swept by 0-2 us, 3 s idle timeout) also run in children that never replace the package state built by the package's own init(). beside every scenario a probe takes the package lock through the hook every 100 ms: a lock that is not available for 30 s while the scenario hangs is reported (the package is dead-locked). evaluations = futures; distinct = distinct scenario configurations")
 	run.Assume("lateness and wind-down bounds are two orders of magnitude above the healthy values and guarded by a stall canary (repeat up to 3 times, then inconclusive)")
 
 	if p := os.Getenv("VERIF_REPLAY"); p != "" {
